@@ -34,6 +34,28 @@ Definition in_pass (s : state) : bool :=
 Definition heard_kind (s : state) : Prop :=
   match s with ActiveIdle _ _ _ | UseToken _ _ _ | ListenToken _ _ => True | _ => False end.
 
+
+(* one poll of a run: station before, time, PHY input, station after, PHY output *)
+Record step_rec : Type := mkStep { s_f : fdl; s_now : Z; s_in : phy_in; s_f' : fdl; s_out : phy_out }.
+
+Definition att_index (a : attempt) : nat := match a with AttFirst => 1 | AttSecond => 2 | AttThird => 3 end.
+
+(* Ghost counter of token transmissions of the current hand-over.  It is driven by observations only
+   (does the poll transmit; is the station in PassToken / CheckTokenPass afterwards): it counts the
+   transmissions, starts again at 1 with the transmission after the third, and is 0 outside a hand-over. *)
+Definition ghost_next (c : nat) (f' : fdl) (o : phy_out) : nat :=
+  if in_pass (f_state f') then
+    match tx o with Some _ => if Nat.eqb c 3 then 1%nat else S c | None => c end
+  else 0%nat.
+
+(* the ghost counter agrees with the attempt label of the code *)
+Definition ghost_ok (c : nat) (f : fdl) : Prop :=
+  match f_state f with
+  | CheckTokenPass a => c = att_index a
+  | PassToken _ a => c = pred (att_index a) \/ (a = AttFirst /\ c = 3%nat)
+  | _ => c = 0%nat
+  end.
+
 Section WithApps.
 Variable A : Type.
 Variable ops : app_ops A.
@@ -127,6 +149,9 @@ Lemma prologue_frame f w f0 w0 : prologue f w f0 w0 ->
   f_p f0 = f_p f /\ f_ring f0 = f_ring f /\ f_lba f0 = f_lba f /\ f_pending f0 = f_pending f /\ f_gap f0 = f_gap f /\
   w_tx w0 = w_tx w /\ w_calls w0 = w_calls w /\ w_rx w0 = w_rx w /\ w_apps w0 = w_apps w.
 Proof. intros [f1 w1|f1 w1 s' _ _ _]; cbn; repeat split; reflexivity. Qed.
+
+Lemma prologue_not_in_pass f w f0 w0 : prologue f w f0 w0 -> in_pass (f_state f) = false -> in_pass (f_state f0) = false.
+Proof. intros [f1 w1|f1 w1 s' _ _ [[-> _]| ->]] Hp; [exact Hp|reflexivity|reflexivity]. Qed.
 
 (* `poll` in terms of poll_inner *)
 Lemma poll_inv f now pin (apps : list A) f' o a c :
@@ -565,6 +590,418 @@ Proof.
       * destruct Hm as [M1 [M2 [_ M4]]]. repeat split; congruence.
       * destruct Hm as [M1 [M2 [_ [M4 _]]]]. repeat split; congruence.
       * exact Hm.
+Qed.
+
+
+(* ------------------------------------------------------------------------------------------ *)
+(* Part 2: how a hand-over is entered from the other states: always with the first attempt; and a
+   poll that ends in PassToken has not transmitted, one that ends in CheckTokenPass has            *)
+
+Definition pass_entry (f' : fdl) (w' : W) : Prop :=
+  match f_state f' with
+  | PassToken _ a => a = AttFirst /\ w_tx w' = None
+  | CheckTokenPass a => a = AttFirst /\ w_tx w' <> None
+  | _ => True
+  end.
+
+Lemma pass_entry_other f' w' : in_pass (f_state f') = false -> pass_entry f' w'.
+Proof. unfold pass_entry. destruct (f_state f'); cbn; try discriminate; intros _; exact I. Qed.
+
+Lemma heard_not_in_pass s : heard_kind s -> in_pass s = false.
+Proof. destruct s; cbn; try contradiction; reflexivity. Qed.
+
+Lemma do_claim_token_scan_entry f now (w : W) f' w' st :
+  f_state f = ClaimToken st -> w_tx w = None -> do_claim_token_scan A f now w = Ok (f', w') -> pass_entry f' w'.
+Proof.
+  intros Hst Hw H. unfold do_claim_token_scan in H.
+  destruct (wait_synchronization_pause f now) as [[f1 wait]| |] eqn:Ew; cbn [bind] in H; try discriminate H.
+  apply wait_sync_same in Ew. destruct Ew as [[_ [_ [_ [_ [Hs1 _]]]]] _].
+  destruct wait.
+  - injection H as <- <-. apply pass_entry_other. rewrite Hs1, Hst. reflexivity.
+  - destruct (f_gap f1) as [rc|cur].
+    + match type of H with bind ?x _ = _ => destruct x as [[f2 w2]| |] eqn:Et end; cbn [bind] in H; try discriminate H.
+      injection H as <- <-. apply trans_spec in Et. destruct Et as [s' [Ht [-> ->]]].
+      rewrite Hs1, Hst in Ht. cbn in Ht. injection Ht as <-. unfold pass_entry. cbn. split; [reflexivity|exact Hw].
+    + destruct (next_gap_poll_traced A f1 w cur) as [[f2 w2]| |] eqn:En; cbn [bind] in H; try discriminate H.
+      apply next_gap_poll_traced_spec in En. destruct En as [g [_ [-> _]]].
+      destruct (transmit_gap_poll_if_pending A (set_gap f1 g) now w2) as [[[f3 w3] polled]| |] eqn:Et; cbn [bind] in H; try discriminate H.
+      apply transmit_gap_poll_spec in Et. destruct Et as [[_ [_ [_ [_ [Hs3 _]]]]] Hpol].
+      destruct polled as [pa|].
+      * unfold set_claim_step in H. destruct (get_claim_token_step (f_state f3)); cbn [bind] in H; try discriminate H.
+        injection H as <- <-. apply pass_entry_other. reflexivity.
+      * injection H as <- <-. apply pass_entry_other. rewrite Hs3. cbn. rewrite Hs1, Hst. reflexivity.
+Qed.
+
+Lemma do_claim_token_entry f now (w : W) f' w' :
+  w_tx w = None -> do_claim_token A f now w = Ok (f', w') -> pass_entry f' w'.
+Proof.
+  intros Hw H. unfold do_claim_token, assert_entry in H.
+  destruct (f_state f) as [ | | | | |step| | | | ] eqn:Es; cbn [kind_of do_fn_entry state_kind_eqb bind get_claim_token_step] in H; try discriminate H.
+  destruct step as [ | | |a0].
+  - destruct (wait_synchronization_pause f now) as [[f1 wait]| |] eqn:Ew; cbn [bind] in H; try discriminate H.
+    apply wait_sync_same in Ew. destruct Ew as [[_ [_ [_ [_ [Hs1 _]]]]] _].
+    destruct wait; [injection H as <- <-; apply pass_entry_other; rewrite Hs1, Es; reflexivity|].
+    destruct (phy_send A w _) as [[w1 n]| |]; cbn [bind] in H; try discriminate H.
+    unfold set_claim_step in H. cbn [set_ring f_state] in H. rewrite Hs1, Es in H. cbn [get_claim_token_step bind] in H.
+    destruct (mark_tx _ now n) as [f2| |] eqn:Em; cbn [bind] in H; try discriminate H.
+    injection H as <- <-. apply mark_tx_same in Em. destruct Em as [_ [_ [_ [_ [Hs2 _]]]]].
+    apply pass_entry_other. rewrite Hs2. reflexivity.
+  - destruct (wait_synchronization_pause f now) as [[f1 wait]| |] eqn:Ew; cbn [bind] in H; try discriminate H.
+    apply wait_sync_same in Ew. destruct Ew as [[_ [_ [_ [_ [Hs1 _]]]]] _].
+    destruct wait; [injection H as <- <-; apply pass_entry_other; rewrite Hs1, Es; reflexivity|].
+    destruct (phy_send A w _) as [[w1 n]| |]; cbn [bind] in H; try discriminate H.
+    unfold set_claim_step in H. cbn [set_ring f_state] in H. rewrite Hs1, Es in H. cbn [get_claim_token_step bind] in H.
+    destruct (mark_tx _ now n) as [f2| |] eqn:Em; cbn [bind] in H; try discriminate H.
+    injection H as <- <-. apply mark_tx_same in Em. destruct Em as [_ [_ [_ [_ [Hs2 _]]]]].
+    apply pass_entry_other. rewrite Hs2. reflexivity.
+  - eapply do_claim_token_scan_entry; [exact Es|exact Hw|exact H].
+  - destruct (await_gap_poll_response A f now w a0) as [[[f1 w1] r]| |] eqn:Ea; cbn [bind] in H; try discriminate H.
+    apply await_gap_poll_response_frame in Ea. destruct Ea as [_ [_ [Hs1 [Htx1 _]]]].
+    destruct r.
+    + injection H as <- <-. apply pass_entry_other. rewrite Hs1, Es. reflexivity.
+    + unfold set_claim_step in H. rewrite Hs1, Es in H. cbn [get_claim_token_step bind] in H.
+      eapply do_claim_token_scan_entry; [|rewrite Htx1; exact Hw|exact H]. reflexivity.
+    + unfold set_claim_step in H. rewrite Hs1, Es in H. cbn [get_claim_token_step bind] in H.
+      injection H as <- <-. apply pass_entry_other. reflexivity.
+    + apply trans_spec in H. destruct H as [s' [Ht [-> _]]]. rewrite Hs1, Es in Ht. cbn in Ht. injection Ht as <-.
+      apply pass_entry_other. reflexivity.
+Qed.
+
+Lemma handle_lost_token_entry f now (w : W) f' w' d :
+  w_tx w = None -> handle_lost_token A f now w = Ok (f', w', d) ->
+  if d then pass_entry f' w' else (same_but_lba f f' /\ w' = w).
+Proof.
+  intros Hw H. unfold handle_lost_token in H.
+  destruct (lba_get_or_insert f now) as [l f0] eqn:El. apply lba_get_or_insert_same in El. destruct El as [Hsame _].
+  destruct (inst_diff now l) as [since| |]; cbn [bind] in H; try discriminate H.
+  destruct (token_lost_timeout (f_p f0) <=? since).
+  - match type of H with context [trans A ?a ?b ?c] => destruct (trans A a b c) as [[f1 w1]| |] eqn:Et end; cbn [bind] in H; try discriminate H.
+    apply trans_spec in Et. destruct Et as [s' [_ [-> ->]]].
+    match type of H with bind ?x _ = _ => destruct x as [[f2 w2]| |] eqn:Ed end; cbn [bind] in H; try discriminate H.
+    injection H as <- <- <-. eapply do_claim_token_entry; [|exact Ed]. exact Hw.
+  - injection H as <- <- <-. split; [exact Hsame|reflexivity].
+Qed.
+
+Lemma do_listen_token_entry f now (w : W) f' w' :
+  do_listen_token A f now w = Ok (f', w') -> in_pass (f_state f') = false.
+Proof.
+  intros H. apply do_listen_token_never_accepts in H.
+  destruct (f_state f'); cbn in *; try reflexivity;
+    destruct H as [H|[H|[H|[H _]]]]; discriminate H.
+Qed.
+
+Lemma active_idle_telegram_heard now s t il s' u :
+  heard_kind (f_state (fst s)) -> active_idle_telegram A now s t il = Ok (s', u) -> heard_kind (f_state (fst s')).
+Proof.
+  destruct s as [f w]. destruct s' as [f' w']. cbn [fst]. unfold active_idle_telegram. intros Hk H.
+  destruct (mark_rx_frame f now) as [_ [_ [_ [Ms _]]]].
+  destruct (handle_telegram A now (mark_rx f now) w t il) as [[f1 w1]| |] eqn:Eh; cbn [bind] in H; try discriminate H.
+  injection H as <- _ _. apply handle_telegram_heard in Eh; [tauto|rewrite Ms; exact Hk].
+Qed.
+
+Lemma do_active_idle_entry f now (w : W) f' w' :
+  w_tx w = None -> do_active_idle A f now w = Ok (f', w') -> pass_entry f' w'.
+Proof.
+  intros Hw H. unfold do_active_idle, assert_entry in H.
+  destruct (f_state f) as [ | | |sr nps cc| | | | | | ] eqn:Es; cbn [kind_of do_fn_entry state_kind_eqb bind] in H; try discriminate H.
+  destruct (handle_lost_token A f now w) as [[[f0 w0] d]| |] eqn:Eh; cbn [bind] in H; try discriminate H.
+  apply handle_lost_token_entry in Eh; [|exact Hw].
+  destruct d; [injection H as <- <-; exact Eh|].
+  destruct Eh as [[_ [_ [_ [_ [Hs0 _]]]]] ->]. rewrite Hs0, Es in H. cbn [get_active_idle bind] in H.
+  destruct sr as [src|].
+  - destruct (wait_synchronization_pause f0 now) as [[f1 wait]| |] eqn:Ew; cbn [bind] in H; try discriminate H.
+    apply wait_sync_same in Ew. destruct Ew as [[_ [_ [_ [_ [Hs1 _]]]]] _].
+    destruct wait; [injection H as <- <-; apply pass_entry_other; rewrite Hs1, Hs0, Es; reflexivity|].
+    destruct (phy_send A w _) as [[w1 n]| |]; cbn [bind] in H; try discriminate H.
+    destruct (mark_tx _ now n) as [f2| |] eqn:Em; cbn [bind] in H; try discriminate H.
+    injection H as <- <-. apply mark_tx_same in Em. destruct Em as [_ [_ [_ [_ [Hs2 _]]]]].
+    apply pass_entry_other. rewrite Hs2. reflexivity.
+  - unfold receive_all_telegrams in H.
+    destruct (receive_all _ _ _ _) as [[[s1 rest] r]| |] eqn:Er; cbn [bind] in H; try discriminate H.
+    destruct s1 as [f1 w1]. injection H as <- <-.
+    assert (Hk : heard_kind (f_state (fst (f1, w1)))).
+    { refine (receive_all_inv (fun s : fdl * W => heard_kind (f_state (fst s))) (active_idle_telegram A now) _ _ (f0, w) _ (f1, w1) rest r _ Er).
+      - intros s t il s' u Hp Hc. exact (active_idle_telegram_heard now s t il s' u Hp Hc).
+      - cbn [fst]. rewrite Hs0, Es. exact I. }
+    apply pass_entry_other, heard_not_in_pass. exact Hk.
+Qed.
+
+Definition is_use (s : state) : Prop := exists tk fa fcd, s = UseToken tk fa fcd.
+
+Lemma app_transmit_entry f now (w : W) idx app hp f' w' d :
+  is_use (f_state f) -> app_transmit_telegram A ops f now w idx app hp = Ok (f', w', d) ->
+  if d then in_pass (f_state f') = false else (f' = f /\ w_tx w' = w_tx w).
+Proof.
+  intros [tk [fa [fcd Hst]]] H. unfold app_transmit_telegram in H.
+  destruct (a_tx ops app now (f_p f) hp) as [[app' r]| |]; cbn [bind] in H; try discriminate H.
+  destruct r as [[wire exp]|].
+  - destruct (phy_transmit A _ wire) as [w1| |]; cbn [bind] in H; try discriminate H.
+    match type of H with bind ?x _ = _ => destruct x as [[f1 w2]| |] eqn:E1 end; cbn [bind] in H; try discriminate H.
+    destruct (mark_tx f1 now (length wire)) as [f2| |] eqn:Em; cbn [bind] in H; try discriminate H.
+    injection H as <- <- <-. apply mark_tx_same in Em. destruct Em as [_ [_ [_ [_ [Hs2 _]]]]]. rewrite Hs2.
+    destruct exp as [addr|].
+    + rewrite Hst in E1. cbn [get_use_token bind] in E1. apply trans_spec in E1. destruct E1 as [s' [Ht [-> _]]].
+      rewrite Hst in Ht. cbn in Ht. injection Ht as <-. reflexivity.
+    + injection E1 as <- _. rewrite Hst. reflexivity.
+  - injection H as <- <- <-. split; reflexivity.
+Qed.
+
+Lemma apps_loop_entry n : forall f now (w : W) hp f' w' d,
+  is_use (f_state f) -> apps_transmit_loop A ops n f now w hp = Ok (f', w', d) ->
+  if d then in_pass (f_state f') = false else (is_use (f_state f') /\ w_tx w' = w_tx w).
+Proof.
+  induction n as [|n IH]; intros f now w hp f' w' d Hu H; cbn [apps_transmit_loop] in H.
+  - injection H as <- <- <-. split; [exact Hu|reflexivity].
+  - destruct (nth_error (w_apps w) (f_next_app f)) as [app|]; [|discriminate H].
+    destruct (app_transmit_telegram A ops f now w (f_next_app f) app hp) as [[[f1 w1] d1]| |] eqn:Ea; cbn [bind] in H; try discriminate H.
+    apply app_transmit_entry in Ea; [|exact Hu].
+    destruct d1.
+    + injection H as <- <- <-. exact Ea.
+    + destruct Ea as [-> Htx1].
+      unfold schedule_next_application in H. destruct Hu as [tk [fa [fcd Hst]]]. rewrite Hst in H. cbn [get_use_token bind] in H.
+      destruct (Nat.eqb (length (w_apps w1)) 0); [discriminate H|]. cbn [bind] in H.
+      match type of H with (if ?c then _ else _) = _ => destruct c end.
+      * injection H as <- <- <-. cbn. split; [eexists; eexists; eexists; reflexivity|exact Htx1].
+      * apply IH in H; [|cbn; eexists; eexists; eexists; reflexivity].
+        destruct d; [exact H|]. destruct H as [Hu' Htx']. split; [exact Hu'|]. rewrite Htx'. exact Htx1.
+Qed.
+
+Lemma do_use_token_entry f now (w : W) f' w' :
+  w_tx w = None -> do_use_token A ops f now w = Ok (f', w') -> pass_entry f' w'.
+Proof.
+  intros Hw H. unfold do_use_token, assert_entry in H.
+  destruct (f_state f) as [ | | | |tk fa fcd| | | | | ] eqn:Es; cbn [kind_of do_fn_entry state_kind_eqb bind get_use_token] in H; try discriminate H.
+  match type of H with bind ?x _ = _ => destruct x as [[f1 w1]| |] eqn:E1 end; cbn [bind] in H; try discriminate H.
+  assert (H1 : w_tx w1 = None /\ f_state f1 = UseToken tk fa fcd).
+  { destruct (negb _).
+    - destruct (inst_add _ _) as [e| |]; cbn [bind] in E1; try discriminate E1.
+      destruct (f_gap f).
+      + injection E1 as <- <-. split; [exact Hw|exact Es].
+      + destruct (inst_sub_dur _ _) as [e2| |]; cbn [bind] in E1; try discriminate E1.
+        injection E1 as <- <-. split; [exact Hw|exact Es].
+    - injection E1 as <- <-. split; [exact Hw|exact Es]. }
+  destruct H1 as [Htx1 Hs1].
+  destruct (wait_synchronization_pause f1 now) as [[f2 wait]| |] eqn:Ew; cbn [bind] in H; try discriminate H.
+  apply wait_sync_same in Ew. destruct Ew as [[_ [_ [_ [_ [Hs2 _]]]]] _].
+  destruct wait.
+  - injection H as <- <-. apply pass_entry_other. rewrite Hs2, Hs1. reflexivity.
+  - rewrite Hs2, Hs1 in H. cbn [get_use_token bind] in H.
+    match type of H with bind ?x _ = _ => destruct x as [[[f3 w3] d]| |] eqn:E3 end; cbn [bind] in H; try discriminate H.
+    assert (H3 : if d then in_pass (f_state f3) = false else (is_use (f_state f3) /\ w_tx w3 = None)).
+    { destruct (now <? f_end_tht f2).
+      - unfold set_first_cycle_done in E3. rewrite Hs2, Hs1 in E3. cbn [get_use_token bind] in E3.
+        unfold apps_transmit_telegram in E3.
+        apply apps_loop_entry in E3; [|cbn; eexists; eexists; eexists; reflexivity].
+        destruct d; [exact E3|]. destruct E3 as [U T]. split; [exact U|]. rewrite T. exact Htx1.
+      - destruct (negb fcd).
+        + unfold set_first_cycle_done in E3. rewrite Hs2, Hs1 in E3. cbn [get_use_token bind] in E3.
+          unfold apps_transmit_telegram in E3.
+          apply apps_loop_entry in E3; [|cbn; eexists; eexists; eexists; reflexivity].
+          destruct d; [exact E3|]. destruct E3 as [U T]. split; [exact U|]. rewrite T. exact Htx1.
+        + injection E3 as <- <- <-. split; [rewrite Hs2, Hs1; eexists; eexists; eexists; reflexivity|exact Htx1]. }
+    destruct d.
+    + injection H as <- <-. apply pass_entry_other. exact H3.
+    + destruct H3 as [[tk3 [fa3 [fcd3 Hs3]]] Htx3]. apply trans_spec in H. destruct H as [s' [Ht [-> ->]]].
+      rewrite Hs3 in Ht. cbn in Ht. injection Ht as <-. unfold pass_entry. cbn. split; [reflexivity|exact Htx3].
+Qed.
+
+Lemma do_await_data_response_entry f now (w : W) f' w' :
+  w_tx w = None -> do_await_data_response A ops f now w = Ok (f', w') -> pass_entry f' w'.
+Proof.
+  intros Hw H. unfold do_await_data_response, assert_entry in H.
+  destruct (f_state f) as [ | | | | | |address tk fa| | | ] eqn:Es; cbn [kind_of do_fn_entry state_kind_eqb bind get_await_data_response] in H; try discriminate H.
+  destruct (nth_error (w_apps w) (f_next_app f)) as [app|]; [|discriminate H].
+  destruct (receive_telegram (fun t => t) (w_rx w)) as [[rest received]| |]; cbn [bind] in H; try discriminate H.
+  destruct received as [t|].
+  - destruct (mark_rx_frame f now) as [_ [_ [_ [Ms _]]]].
+    destruct (is_valid_response (mark_rx f now) address t).
+    + destruct (a_rx ops app now _ address t) as [app'| |]; cbn [bind] in H; try discriminate H.
+      match type of H with context [trans A ?a ?b ?c] => destruct (trans A a b c) as [[f1 w1]| |] eqn:Et end; cbn [bind] in H; try discriminate H.
+      apply trans_spec in Et. destruct Et as [s' [Ht [-> ->]]].
+      cbn [sync_pending_bytes set_pending f_state] in Ht. rewrite Ms, Es in Ht. cbn in Ht. injection Ht as <-.
+      unfold set_first_cycle_done in H. cbn [set_st f_state get_use_token bind] in H.
+      injection H as <- <-. apply pass_entry_other. reflexivity.
+    + apply trans_spec in H. destruct H as [s' [Ht [-> ->]]]. rewrite Ms, Es in Ht. cbn in Ht. injection Ht as <-.
+      apply pass_entry_other. reflexivity.
+  - destruct (check_slot_expired _ now) as [[f1 expired]| |] eqn:Ec; cbn [bind] in H; try discriminate H.
+    apply check_slot_expired_same in Ec. destruct Ec as [_ [_ [_ [_ [Hs1 _]]]]].
+    cbn [sync_pending_bytes set_pending f_state] in Hs1.
+    destruct expired.
+    + destruct (a_to ops app now _ address) as [app'| |]; cbn [bind] in H; try discriminate H.
+      match type of H with context [trans A ?a ?b ?c] => destruct (trans A a b c) as [[f2 w2]| |] eqn:Et end; cbn [bind] in H; try discriminate H.
+      apply trans_spec in Et. destruct Et as [s' [Ht [-> ->]]].
+      rewrite Hs1, Es in Ht. cbn in Ht. injection Ht as <-.
+      unfold set_first_cycle_done in H. cbn [set_st f_state get_use_token bind] in H.
+      eapply do_use_token_entry; [|exact H].
+      cbn [w_tx note log_call set_app set_rx]. match goal with |- context [if ?c then _ else _] => destruct c end; exact Hw.
+    + injection H as <- <-. apply pass_entry_other. rewrite Hs1, Es. reflexivity.
+Qed.
+
+Lemma do_await_status_response_entry f now (w : W) f' w' :
+  w_tx w = None -> do_await_status_response A f now w = Ok (f', w') -> pass_entry f' w'.
+Proof.
+  intros Hw H. unfold do_await_status_response, assert_entry in H.
+  destruct (f_state f) as [ | | | | | | | | |address] eqn:Es; cbn [kind_of do_fn_entry state_kind_eqb bind get_await_status_response_address] in H; try discriminate H.
+  destruct (await_gap_poll_response A f now w address) as [[[f1 w1] r]| |] eqn:Ea; cbn [bind] in H; try discriminate H.
+  apply await_gap_poll_response_frame in Ea. destruct Ea as [_ [_ [Hs1 [Htx1 _]]]].
+  destruct r.
+  - injection H as <- <-. apply pass_entry_other. rewrite Hs1, Es. reflexivity.
+  - match type of H with context [trans A ?a ?b ?c] => destruct (trans A a b c) as [[f2 w2]| |] eqn:Et end; cbn [bind] in H; try discriminate H.
+    apply trans_spec in Et. destruct Et as [s' [Ht [-> ->]]]. rewrite Hs1, Es in Ht. cbn in Ht. injection Ht as <-.
+    apply (do_pass_token_spec _ now _ f' w' false AttFirst) in H; [|reflexivity|cbn; rewrite Htx1; exact Hw].
+    destruct H as [[_ [_ [_ [_ [Hs _]]]]] Htx _ _ _|addr Hdg _ _ _ _ _ _ _ _|[r' [_ [_ [Htx [Hs _]]]]]].
+    + unfold pass_entry. rewrite Hs. cbn. split; [reflexivity|exact Htx].
+    + discriminate Hdg.
+    + unfold pass_entry. rewrite Hs. destruct (r_ns r' =? _); [exact I|]. split; [reflexivity|rewrite Htx; discriminate].
+  - apply trans_spec in H. destruct H as [s' [Ht [-> ->]]]. rewrite Hs1, Es in Ht. cbn in Ht. injection Ht as <-.
+    unfold pass_entry. cbn. split; [reflexivity|rewrite Htx1; exact Hw].
+  - apply trans_spec in H. destruct H as [s' [Ht [-> _]]]. rewrite Hs1, Es in Ht. cbn in Ht. injection Ht as <-.
+    apply pass_entry_other. reflexivity.
+Qed.
+
+(* a whole poll from a state outside the hand-over *)
+Lemma poll_entry f now pin (apps : list A) f' o a c :
+  in_pass (f_state f) = false -> poll ops f now pin apps = Ok (f', o, a, c) ->
+  match f_state f' with
+  | PassToken _ att => att = AttFirst /\ tx o = None
+  | CheckTokenPass att => att = AttFirst /\ tx o <> None
+  | _ => True
+  end.
+Proof.
+  intros Hp H. apply poll_inv in H. destruct H as [w' [H [-> [_ _]]]]. cbn [tx].
+  change (pass_entry f' w').
+  apply poll_inner_cases in H. destruct H as [[_ [_ [-> _]]]|[_ [f0 [w0 [Hpro H]]]]].
+  - apply pass_entry_other. exact Hp.
+  - assert (Hp0 : in_pass (f_state f0) = false /\ w_tx w0 = None).
+    { split; [exact (prologue_not_in_pass _ _ _ _ Hpro Hp)|].
+      destruct (prologue_frame _ _ _ _ Hpro) as [_ [_ [_ [_ [_ [T _]]]]]]. rewrite T. reflexivity. }
+    destruct Hp0 as [Hp0 Hw0]. unfold body in H.
+    destruct (tx_busy pin || predicted f0 now).
+    + injection H as <- <-. apply pass_entry_other.
+      destruct (mark_bus_activity_sblp f0 now) as [_ [_ [_ [_ [Hs _]]]]]. rewrite Hs. exact Hp0.
+    + destruct (check_for_bus_activity A f0 now w0) as [f1 w1] eqn:Ec. apply cfba_spec in Ec.
+      destruct Ec as [[_ [_ [_ [_ [Hs1 _]]]]] [Htx1 _]]. rewrite Hw0 in Htx1.
+      unfold dispatch in H. rewrite Hs1 in H.
+      destruct (f_state f0) eqn:Es0; cbn [kind_of poll_dispatch] in H; try discriminate H; try discriminate Hp0.
+      * apply pass_entry_other. eapply do_listen_token_entry. exact H.
+      * eapply do_active_idle_entry; [exact Htx1|exact H].
+      * eapply do_use_token_entry; [exact Htx1|exact H].
+      * eapply do_claim_token_entry; [exact Htx1|exact H].
+      * eapply do_await_data_response_entry; [exact Htx1|exact H].
+      * eapply do_await_status_response_entry; [exact Htx1|exact H].
+Qed.
+
+
+(* ------------------------------------------------------------------------------------------ *)
+(* Part 3: runs of polls and the retry discipline                                                *)
+
+Fixpoint run_polls (f : fdl) (apps : list A) (ins : list (Z * phy_in)) : res (list step_rec) :=
+  match ins with
+  | [] => Ok []
+  | (now, pin) :: t =>
+      let* (f', o, apps', _) := poll ops f now pin apps in
+      let* l := run_polls f' apps' t in
+      Ok (mkStep f now pin f' o :: l)
+  end.
+
+(* what the retry discipline demands of one poll, given the ghost count c before it *)
+Definition retry_step_ok (c : nat) (s : step_rec) : Prop :=
+  let f := s_f s in let f' := s_f' s in let o := s_out s in let tsa := ts f in
+  (c <= 3)%nat /\
+  (forall att, f_state f = CheckTokenPass att ->
+     c = att_index att /\
+     if slot_expired f (s_now s) (s_in s) then
+       exists r1, (if Nat.eqb c 3 then remove_station (f_ring f) (r_ns (f_ring f)) = Ok r1 else r1 = f_ring f) /\
+         ((tx o = None /\ f_state f' = PassToken false (check_pass_next att) /\ f_ring f' = r1) \/
+          (exists r', witness r1 tsa (r_ns r1) = Ok r' /\ f_ring f' = r' /\ tx o = Some (encode_token (r_ns r1) tsa) /\
+             f_state f' = if r_ns r' =? tsa then UseToken (s_now s) None false else CheckTokenPass (check_pass_next att)))
+     else tx o = None /\ ring_witnessed (f_ring f) (f_ring f')) /\
+  (forall dg att, f_state f = PassToken dg att ->
+     (tx o = None /\ f_ring f' = f_ring f) \/ (f_ring f' = f_ring f /\ exists a, f_state f' = AwaitStatusResponse a) \/
+     (tx o = Some (encode_token (r_ns (f_ring f)) tsa) /\ witness (f_ring f) tsa (r_ns (f_ring f)) = Ok (f_ring f') /\
+      f_state f' = if r_ns (f_ring f') =? tsa then UseToken (s_now s) None false else CheckTokenPass att)).
+
+Fixpoint retry_ok (c : nat) (steps : list step_rec) : Prop :=
+  match steps with
+  | [] => True
+  | s :: t => retry_step_ok c s /\ retry_ok (ghost_next c (s_f' s) (s_out s)) t
+  end.
+
+Lemma ghost_ok_out c f : in_pass (f_state f) = false -> (ghost_ok c f <-> c = 0%nat).
+Proof. unfold ghost_ok. destruct (f_state f); cbn; try discriminate; intros _; tauto. Qed.
+
+Lemma retry_step f now pin (apps : list A) f' o a cs c :
+  ghost_ok c f -> poll ops f now pin apps = Ok (f', o, a, cs) ->
+  retry_step_ok c (mkStep f now pin f' o) /\ ghost_ok (ghost_next c f' o) f'.
+Proof.
+  intros Hg H. unfold retry_step_ok. cbn [s_f s_f' s_out s_now s_in].
+  destruct (in_pass (f_state f)) eqn:Ep.
+  - destruct (f_state f) as [ | | | | | | |dg att|att| ] eqn:Es; try discriminate Ep.
+    + (* PassToken *)
+      unfold ghost_ok in Hg. rewrite Es in Hg.
+      destruct (pass_token_poll f now pin apps f' o a cs dg att Es H) as [_ [_ [_ [_ D]]]].
+      split.
+      * split; [destruct Hg as [Hg|[_ Hg]]; subst c; destruct att; cbn; lia|].
+        split; [intros a0 Hs; discriminate Hs|].
+        intros dg0 a0 Hs. injection Hs as E1 E2. subst dg0 a0.
+        destruct D as [[Htx [_ Hr]]|[[addr [_ [_ [Hs Hr]]]]|[r' [Hwit [Hr [Htx Hs]]]]]].
+        -- left. split; assumption.
+        -- right. left. split; [exact Hr|exists addr; exact Hs].
+        -- right. right. subst r'. split; [exact Htx|]. split; [exact Hwit|exact Hs].
+      * unfold ghost_next, ghost_ok.
+        destruct D as [[Htx [Hs Hr]]|[[addr [_ [_ [Hs Hr]]]]|[r' [Hwit [Hr [Htx Hs]]]]]].
+        -- rewrite Hs, Htx. cbn [in_pass]. exact Hg.
+        -- rewrite Hs. reflexivity.
+        -- rewrite Hs, Htx. destruct (r_ns r' =? ts f); cbn [in_pass]; [reflexivity|].
+           destruct Hg as [Hg|[Ha Hg]]; [subst c; destruct att; reflexivity|subst att c; reflexivity].
+    + (* CheckTokenPass *)
+      unfold ghost_ok in Hg. rewrite Es in Hg. subst c.
+      destruct (check_pass_poll f now pin apps f' o a cs att Es H) as [_ [_ [_ D]]].
+      destruct (slot_expired f now pin) eqn:Ex.
+      * destruct D as [_ [r1 [Hrm D]]].
+        split.
+        -- split; [destruct att; cbn; lia|].
+           split; [|intros dg0 a0 Hs; discriminate Hs].
+           intros a0 Hs. injection Hs as E1. subst a0. split; [reflexivity|].
+           exists r1. split; [destruct att; exact Hrm|exact D].
+        -- unfold ghost_next, ghost_ok.
+           destruct D as [[Htx [Hs _]]|[r' [_ [_ [Htx Hs]]]]].
+           ++ rewrite Hs, Htx. cbn [in_pass]. destruct att; cbn; [left; reflexivity|left; reflexivity|right; split; reflexivity].
+           ++ rewrite Hs, Htx. destruct (r_ns r' =? ts f); cbn [in_pass]; [reflexivity|]. destruct att; reflexivity.
+      * destruct D as [Htx [Hrw D]].
+        split.
+        -- split; [destruct att; cbn; lia|].
+           split; [|intros dg0 a0 Hs; discriminate Hs].
+           intros a0 Hs. injection Hs as E1. subst a0. split; [reflexivity|]. split; assumption.
+        -- unfold ghost_next. rewrite Htx.
+           assert (Hcase : f_state f' = CheckTokenPass att \/ heard_kind (f_state f')).
+           { destruct (tx_busy pin || predicted f now); [left; tauto|].
+             destruct (decode_spec (rx pin)); [left; tauto|left; tauto|right; exact D]. }
+           destruct Hcase as [Hs|Hk].
+           ++ rewrite Hs. cbn [in_pass]. unfold ghost_ok. rewrite Hs. reflexivity.
+           ++ rewrite (heard_not_in_pass _ Hk). apply ghost_ok_out; [exact (heard_not_in_pass _ Hk)|reflexivity].
+  - apply (ghost_ok_out c f Ep) in Hg. subst c.
+    pose proof (poll_entry f now pin apps f' o a cs Ep H) as He.
+    split.
+    + split; [lia|]. split.
+      * intros a0 Hs. rewrite Hs in Ep. discriminate Ep.
+      * intros dg0 a0 Hs. rewrite Hs in Ep. discriminate Ep.
+    + unfold ghost_next, ghost_ok. destruct (f_state f') as [ | | | | | | |dg att|att| ]; cbn [in_pass]; try reflexivity.
+      * destruct He as [-> ->]. left. reflexivity.
+      * destruct He as [-> He]. destruct (tx o); [reflexivity|contradiction He; reflexivity].
+Qed.
+
+(* C11_retry_discipline: over every run of polls, from every station state whose attempt label agrees
+   with the ghost count, with every input *)
+Theorem retry_discipline : forall ins f0 apps0 c0 steps,
+  ghost_ok c0 f0 -> run_polls f0 apps0 ins = Ok steps -> retry_ok c0 steps.
+Proof.
+  induction ins as [|[now pin] t IH]; intros f0 apps0 c0 steps Hg H; cbn [run_polls] in H.
+  - injection H as <-. exact I.
+  - destruct (poll ops f0 now pin apps0) as [[[[f' o] apps'] cs]| |] eqn:Ep; cbn [bind] in H; try discriminate H.
+    destruct (run_polls f' apps' t) as [l| |] eqn:Er; cbn [bind] in H; try discriminate H.
+    injection H as <-. destruct (retry_step _ _ _ _ _ _ _ _ _ Hg Ep) as [Hs Hg'].
+    cbn [retry_ok s_f' s_out]. split; [exact Hs|]. exact (IH _ _ _ _ Hg' Er).
 Qed.
 
 End WithApps.
